@@ -282,7 +282,24 @@ func (in *Instance) way(pc *Piece, located bool) *osm.Way {
 	return w
 }
 
+// Dirs returns the true direction of every piece (indexed like Pieces).
+func (in *Instance) Dirs() []orb.Orientation {
+	d := make([]orb.Orientation, len(in.Pieces))
+	for i := range in.Pieces {
+		d[i] = in.Pieces[i].Dir
+	}
+	return d
+}
+
 func (in *Instance) members(withOrient bool) osm.Members {
+	if withOrient {
+		return in.membersPre(in.Dirs())
+	}
+	return in.membersPre(nil)
+}
+
+// membersPre lists the members with Orientation pre[piece] (nil: none).
+func (in *Instance) membersPre(pre []orb.Orientation) osm.Members {
 	var ms osm.Members
 	for i, pi := range in.MemberOrder {
 		if in.Label && in.LabelAt == i {
@@ -290,8 +307,8 @@ func (in *Instance) members(withOrient bool) osm.Members {
 		}
 		pc := &in.Pieces[pi]
 		m := osm.Member{Type: osm.TypeWay, Ref: int64(pc.ID), Role: pc.Role}
-		if withOrient {
-			m.Orientation = pc.Dir
+		if pre != nil {
+			m.Orientation = pre[pi]
 		}
 		ms = append(ms, m)
 	}
@@ -315,6 +332,14 @@ func (in *Instance) labelNode() *osm.Node {
 // objects carry the coordinates. withOrient: way members carry the truth's direction.
 // Every call builds fresh objects.
 func (in *Instance) OSM(onWayNodes, withOrient bool) *osm.OSM {
+	if withOrient {
+		return in.OSMPre(onWayNodes, in.Dirs())
+	}
+	return in.OSMPre(onWayNodes, nil)
+}
+
+// OSMPre is OSM with Member.Orientation = pre[piece] (0: member not annotated; nil: none is).
+func (in *Instance) OSMPre(onWayNodes bool, pre []orb.Orientation) *osm.OSM {
 	o := &osm.OSM{}
 	if !onWayNodes {
 		for _, vi := range in.NodeOrder {
@@ -328,7 +353,9 @@ func (in *Instance) OSM(onWayNodes, withOrient bool) *osm.OSM {
 	for _, pi := range in.WayOrder {
 		o.Ways = append(o.Ways, in.way(&in.Pieces[pi], onWayNodes))
 	}
-	o.Relations = osm.Relations{in.relation(withOrient)}
+	rel := in.relation(false)
+	rel.Members = in.membersPre(pre)
+	o.Relations = osm.Relations{rel}
 	return o
 }
 
